@@ -60,6 +60,22 @@ def tie_schedules(ctx):
             terms.append("check_schedule %d %s %s 0 %s %s" % (KS.EXEC_FUEL, alg, cfg,
                          "[" + "; ".join(PG.creq(*r) for r in sched) + "]", "[" + "; ".join(PG.cobs(o) for o in obs) + "]"))
             owners.append(dict(inp, schedule=[[x[0], x[1], list(x[2])] for x in sched]))
+        # slice / list requests on every series name (deletable intermediates and products included), interleaved
+        # with scalar requests: every element equals the scalar request on a fresh computation, nothing raises
+        sS, _, _ = KS.build(p, p["fn"], w)
+        shape_hint = (w["nb"], w["nb"]) + (5,) * w["np"]
+        for name, spec in KS.random_multi_requests(rng, sorted(sS.keys()), w["nb"], w["np"], 4):
+            o, elems = KS.observe_multi(sS, name, spec, shape_hint)
+            fresh, _, _ = KS.build(p, p["fn"], w)
+            scal = [KS.observe(fresh, ("tab", name, e)) for e in elems]
+            scal_exn = [x for x in scal if isinstance(x, tuple) and x and x[0] == "exn"]
+            minp = dict(shipped=p["name"], source=None, world=PG.world_to_json(w), multi_request=[name, spec])
+            cases += 1
+            if o[0] == "exn" and not scal_exn:
+                failures.append(dict(what="the multi-element request %s%s raised %s although every element can be requested one at a time" % (name, spec, o[1]), input=minp))
+            elif o[0] != "exn" and not scal_exn and list(o[1]) != scal:
+                failures.append(dict(what="the multi-element request %s%s differs from the scalar requests on a fresh computation" % (name, spec), input=minp))
+            KS.observe(sS, rng.choice(reqs))
         # two computations sharing the same input objects, interleaved
         sA, _, inputs = KS.build(p, p["fn"], w)
         from pymablock.algorithm_parsing import series_computation
@@ -569,6 +585,8 @@ def oracle_sq_masked(ctx):
 
 
 def replay_input(inp):
+    if "multi_request" in inp:
+        return KS.replay_multi(inp)
     if inp.get("level") == "sq_masked":
         return sqm_check(inp["problem"], [((f[0], tuple(f[1])), (t[0], tuple(t[1]))) for f, t in inp["pairs"]])
     if inp.get("level") == "user_products":
